@@ -265,7 +265,13 @@ def run_case(case, R):
                     except Exception:
                         pass
             elif name == "raw_inplace":
-                if _raw_inplace(state["cfg"], leaves, op):
+                try:
+                    edited = _raw_inplace(state["cfg"], leaves, op)
+                except ValueError:
+                    # the untyped field holds a typed proxy taken over from another field: that proxy validates (and
+                    # may reject) what is put into it
+                    edited = False
+                if edited:
                     inplace = True
                     R.label("inplace:untyped")
             else:
